@@ -10,5 +10,6 @@ CONSTANTS
   MaxBuilds = 99
   Variant = "chained"
   Fuel = 50
+  Styles <- JoinStyles
   MaxHist = 0
 CONSTRAINT EmitJoin
